@@ -26,7 +26,8 @@ import vcommon
 from vcommon import Failure, PropertyCheck, run_main
 
 EXACT = [0, 0, 0, 1, 1, 3, 3, 7, 15, 31, 63, 127, 1023, 2 ** 20 - 1]   # d/(1+d) is a dyadic rational
-INEXACT = [[2, 1], [5, 1], [10, 1], [1, 2], [5, 2]]
+INEXACT = [[2, 1], [5, 1], [10, 1], [1, 2], [5, 2],
+           [1, 2 ** 40], [1, 2 ** 40], [1, 2 ** 60]]   # near misses: positive but below any "tolerance"
 
 
 # ---------------------------------------------------------------------------------------------
